@@ -1,4 +1,5 @@
 import UtlsVerif.Ticket
+import UtlsVerif.SessionCodecRoundtrip
 /-!
 # C35 — session tickets are authenticated and round-trip
 
@@ -13,6 +14,11 @@ IV, state and received byte string:
 * `rotated_key_rejected` — a ticket sealed under a key that is no longer configured yields no state
   (hypothesis: no MAC collision across keys on that message);
 * `keys_same_derivation` — `TicketKeyFromBytes` and `SetSessionTicketKeys` derive identical keys;
+* `config_frame`, `clone_independent` — in any history over Configs related by `Clone`, a Config's keys
+  change only by operations on that Config: operations on a clone never change the original and vice versa;
+* `session_codec_roundtrip`, `session_ticket_roundtrip` — the transcribed `SessionState.Bytes` /
+  `ParseSessionState` round-trip on every well-formed state, which discharges `state_roundtrip`'s
+  codec hypothesis for the real codec;
 * `forged_state_verbatim`, `setter_frames` — `MakeClientSessionState` and the setters carry version,
   suite and secret unchanged.
 -/
@@ -48,8 +54,10 @@ theorem ticket_roundtrip (C : Crypto) (hC : C.Laws) (k : TKey) (rest : List TKey
   rw [hiv', drop_append_len _ _ _ hiv]
   simp [tryKeys, hC.ctr_invol]
 
-/-- **round trip on states**: with any state codec that round-trips (`ParseSessionState ∘ Bytes`, an
-explicit hypothesis validated by correspondence), `DecryptTicket(EncryptTicket(s)) = s`. -/
+/-- **round trip on states**: with any state codec that round-trips, `DecryptTicket(EncryptTicket(s)) = s`.
+The hypothesis is discharged for the real codec (`ParseSessionState ∘ Bytes`, transcribed in
+`SessionCodec`) by `session_codec_roundtrip` / `state_roundtrip_hypothesis_holds`; the instance is
+`session_ticket_roundtrip`. -/
 theorem state_roundtrip {S : Type} (enc : S → Bytes) (dec : Bytes → Option S)
     (hcodec : ∀ s, dec (enc s) = some s)
     (C : Crypto) (hC : C.Laws) (k : TKey) (rest : List TKey) (iv : Bytes) (s : S) (t : Bytes)
@@ -213,6 +221,110 @@ theorem setter_frames (s : ClientSess) (op : Setter) :
     (match op with | .ticket v => s'.ticket = v | _ => s'.ticket = s.ticket) ∧
     (match op with | .ems v => s'.ems = v | _ => s'.ems = s.ems) := by
   cases op <;> simp [applySetter]
+
+/-! ### Configs related by `Clone` -/
+
+private theorem sysStep_frame (C : Crypto) (s : List KeyCfg) (op : SOp) (i : Nat)
+    (hi : i < s.length) (hw : op.writes ≠ some i) :
+    (sysStep C s op)[i]? = s[i]? ∧ i < (sysStep C s op).length := by
+  cases op with
+  | set j bs =>
+    have hji : j ≠ i := fun h => hw (by simp [SOp.writes, h])
+    simp [sysStep, hji, hi]
+  | use j =>
+    have hji : j ≠ i := fun h => hw (by simp [SOp.writes, h])
+    simp [sysStep, hji, hi]
+  | clone j =>
+    simp only [sysStep]
+    cases s[j]? with
+    | none => exact ⟨rfl, hi⟩
+    | some c => exact ⟨List.getElem?_append_left hi, by simp; omega⟩
+
+/-- **frame**: in any history, a Config that no operation writes keeps its state (legacy key and
+installed keys) — whatever is done to other Configs, including its clones and its original. -/
+theorem config_frame (C : Crypto) (ops : List SOp) (s : List KeyCfg) (i : Nat)
+    (hi : i < s.length) (hw : ∀ op ∈ ops, op.writes ≠ some i) :
+    (ops.foldl (sysStep C) s)[i]? = s[i]? := by
+  induction ops generalizing s with
+  | nil => rfl
+  | cons op ops ih =>
+    have h1 := sysStep_frame C s op i hi (hw op (by simp))
+    rw [List.foldl_cons, ih (sysStep C s op) h1.2 (fun o ho => hw o (by simp [ho])), h1.1]
+
+/-- **clone independence**: after `c' := c.Clone()`, (1) any operations that do not act on the original
+`c` leave it exactly as it was — in particular key rotations on the clone; (2) any operations that do
+not act on the clone leave the clone with the keys the original had *at the time of cloning* — in
+particular key rotations on the original. Hence each Config's current keys are those derived from the
+seeds last set on that very Config (`set_keys_override`). -/
+theorem clone_independent (C : Crypto) (s : List KeyCfg) (i : Nat) (c : KeyCfg) (hc : s[i]? = some c)
+    (ops : List SOp) :
+    ((∀ op ∈ ops, op.writes ≠ some i) →
+      (ops.foldl (sysStep C) (sysStep C s (.clone i)))[i]? = some c) ∧
+    ((∀ op ∈ ops, op.writes ≠ some s.length) →
+      (ops.foldl (sysStep C) (sysStep C s (.clone i)))[s.length]? = some c) := by
+  have hi : i < s.length := by
+    rcases Nat.lt_or_ge i s.length with h | h
+    · exact h
+    · rw [List.getElem?_eq_none h] at hc; cases hc
+  have hs : sysStep C s (.clone i) = s ++ [c.clone] := by simp [sysStep, hc]
+  constructor
+  · intro hw
+    rw [config_frame C ops _ i (by rw [hs]; simp; omega) hw, hs, List.getElem?_append_left hi, hc]
+  · intro hw
+    rw [config_frame C ops _ s.length (by rw [hs]; simp) hw, hs]
+    simp [KeyCfg.clone]
+
+/-- the clone starts with the original's keys: what the original would use now, the clone uses too. -/
+theorem clone_same_keys (C : Crypto) (c : KeyCfg) : (c.clone.current C).2 = (c.current C).2 := rfl
+
+private def toy0 : Crypto := { ctr := fun _ _ x => x, mac := fun _ _ => [], hash := fun b => b }
+
+example : ((sysStep toy0 (sysStep toy0 (sysStep toy0 [⟨none, []⟩] (.set 0 [[1], [2]])) (.clone 0)) (.set 0 [[3]])).map
+    (·.installed.length)) = [1, 2] := by decide
+
+/-! ### the real state codec -/
+
+open SessionCodec in
+/-- **`ParseSessionState(s.Bytes()) = s`** for the transcribed codec, on every well-formed state
+(`Sess.wf`: sizes within their length prefixes, non-empty secret, a leaf for client sessions, OCSP/SCT
+non-empty when present and only with a leaf, certificates that parse, verified chains non-empty and
+starting with the leaf, ALPN only with EarlyData, use_by/age_add only for TLS 1.3 clients). -/
+theorem session_codec_roundtrip (parses : Bytes → Bool) (s : Sess) (h : s.wf parses) :
+    decode parses (encode s) = some s :=
+  decode_encode parses s h
+
+open SessionCodec in
+/-- `state_roundtrip` with its codec hypothesis discharged:
+`DecryptTicket(EncryptTicket(s))` parses back to `s` for every well-formed state. -/
+theorem session_ticket_roundtrip (parses : Bytes → Bool) (C : Crypto) (hC : C.Laws) (k : TKey) (rest : List TKey)
+    (iv : Bytes) (s : Sess) (t : Bytes) (hwf : s.wf parses) (hiv : iv.length = ivLen)
+    (he : encrypt C (k :: rest) iv (encode s) = some t) :
+    (decrypt C (k :: rest) t).bind (decode parses) = some s := by
+  rw [ticket_roundtrip C hC k rest iv (encode s) t hiv he]
+  exact decode_encode parses s hwf
+
+open SessionCodec in
+/-- the same through `state_roundtrip` itself: its hypothesis `∀ s, dec (enc s) = some s` holds for the
+real codec over the type of well-formed states. -/
+theorem state_roundtrip_hypothesis_holds (parses : Bytes → Bool) :
+    ∀ s : { s : Sess // s.wf parses },
+      ((decode parses (encode s.1)).bind fun r => if h : r.wf parses then some (⟨r, h⟩ : { s : Sess // s.wf parses }) else none)
+        = some s := by
+  intro ⟨s, h⟩
+  simp [decode_encode parses s h, h]
+
+/-- a TLS 1.3 client session with two certificates, OCSP staple, two SCTs, two verified chains that
+differ after the leaf, EarlyData with ALPN: well-formed (certificates `[1,_]` "parse"). -/
+private def exSess : SessionCodec.Sess :=
+  { version := 0x0304, isClient := true, suite := 0x1301, createdAt := 1700000000, secret := [1, 2, 3],
+    extra := [[], [9]], ems := true, earlyData := true, certs := [[1, 1], [1, 2]], ocsp := some [7],
+    scts := some [[5], [6, 6]], chains := [[[1, 1], [1, 2], [1, 4]], [[1, 1], [1, 3]]], alpn := [104, 50],
+    useBy := 1700003600, ageAdd := 12345 }
+
+private def exParses (c : Bytes) : Bool := c.head? == some 1
+
+example : exSess.wf exParses := by decide
+example : SessionCodec.decode exParses (SessionCodec.encode exSess) = some exSess := by decide
 
 /-! ### non-vacuity: a concrete instance of the laws (XOR-with-key "CTR", a toy MAC) and a round trip -/
 
